@@ -89,6 +89,25 @@ def validObj (sh : Shape) : Obj → Bool
   | .psd x => psValidB io (dmodelValidB io sh.S sh.A) sh.S sh.A sh.O x
   | .vec v => v.length == sh.S
 
+/-! the hypothesis `IsDbl` of the `*_final` round-trip theorems, evaluated on every number of a generated object
+    (`isDoubleB_iff_IsPosDbl`: the executable predicate is the structural one) -/
+def matVals (m : Mat Rat) : List Rat := m.flatMap id
+def spVals (m : SpMat Rat) : List Rat := m.map (·.v)
+def dmodelVals (m : DModel Rat) : List Rat := m.discount :: (m.T.flatMap matVals ++ matVals m.R)
+def smodelVals (m : SModel Rat) : List Rat := m.discount :: (m.T.flatMap spVals ++ spVals m.R)
+def objValues : Obj → List Rat
+  | .dmodel m => dmodelVals m
+  | .smodel m => smodelVals m
+  | .dexp e => matVals e.rewards ++ matVals e.m2
+  | .sexp e => spVals e.rewards ++ spVals e.m2
+  | .mpol m => matVals m
+  | .ppol vf => vf.flatMap (fun l => l.flatMap (·.values))
+  | .pdd x => dmodelVals x.1 ++ x.2.flatMap matVals
+  | .pss x => smodelVals x.1 ++ x.2.flatMap spVals
+  | .pds x => smodelVals x.1 ++ x.2.flatMap matVals
+  | .psd x => dmodelVals x.1 ++ x.2.flatMap spVals
+  | .vec v => v
+
 /-! dump parsers (harness `dumpObj`) -/
 def pMat (r c : Nat) : P (Mat Rat) := P.rep (P.rep P.q c) r
 def pMat3 (k r c : Nat) : P (List (Mat Rat)) := P.rep (pMat r c) k
@@ -140,6 +159,10 @@ def pHead : P (String × Shape) := do
 inductive Out where
   | failed (sig : Sig) (destSame : Bool)
   | good (rem : Stream) (y : Obj)
+  /-- the same bytes loaded through a stream that reports failures by exception ended differently -/
+  | exmode (plain ex : Nat)
+  /-- loaded, but the object holds a non-finite value (duplicate triplets summed to inf): outside the quantifier -/
+  | nonfinite
 
 def pOut (kind : String) (sh : Shape) : P Out := do
   let t ← P.tok
@@ -149,6 +172,8 @@ def pOut (kind : String) (sh : Shape) : P Out := do
   | "t" => pure (.failed .threw true)
   | "T" => pure (.failed .threw false)
   | "g" => do let rem ← P.tok; let y ← pObj kind sh; pure (.good (tokenize (unhex rem)) y)
+  | "X" => do let a ← P.nat; let b ← P.nat; pure (.exmode a b)
+  | "N" => pure .nonfinite
   | _ => P.fail
 
 def sigName : Sig → String
@@ -174,6 +199,8 @@ def illObj (sh : Shape) : Obj → Bool
 
 def judgeCore (v : Verdict) (comp : String) (m : R Obj) (sh : Shape) (o : Out) (what : String) (saved : Option Obj) : Verdict :=
   match o, m with
+  | .exmode a b, _ => v.failIf true s!"{comp} exception_mode_outcome_differs {what} plain={a} exceptions={b}"
+  | .nonfinite, _ => { v with tag := if (v.tag.splitOn " ").contains "nonfinite_not_judged" then v.tag else v.tag ++ " nonfinite_not_judged" }
   | .failed sig same, .bad msig =>
       let v := v.failIf (!same) s!"{comp} dest_modified_on_failed_load {what} signal={sigName sig}"
       v.diffIf (sig != msig) s!"{comp} signal {what} model={sigName msig} impl={sigName sig}"
@@ -227,6 +254,7 @@ def rt : P String := do
     -- writer: model text (at the precisions found in the source) vs the library's text, token by token
     let v := v.diffIf (writeObj prec x != text) s!"{comp} writer model and impl texts differ"
     let v := v.diffIf (!(validObj sh x)) s!"{comp} generator object not valid in the model"
+    let v := v.diffIf (!((objValues x).all isDblB)) s!"{comp} generator object holds a number that is not a finite double (hypothesis IsDbl)"
     -- the trusted hypothesis of the round-trip theorems, evaluated on this object: written at 17 digits (and with the
     -- count read as an integer) the model must read back exactly x
     let rt17 := match readObj false kind sh with
@@ -323,6 +351,10 @@ def corruptToks (t : Stream) (i : Nat) (c : String) : Option Stream :=
     | "plus1" =>
         if x.all isDig && x.length < 18 then some (pre ++ printN (natOfDigits x + 1) :: post)
         else some (pre ++ ('1' :: x) :: post)
+    | "flip" => some (pre ++ (match x with | '-' :: r => r | _ => '-' :: x) :: post)
+    | "zero" => some (pre ++ "0".toList :: post)
+    | "cnegA" => some ((pre ++ "1.5".toList :: post).set (i + 1) "-0.5".toList)
+    | "cnegB" => some ((pre ++ "1.5".toList :: post).set (i + 3) "-0.5".toList)
     | _ => none
 
 def corruptGo (kind : String) (sh : Shape) (comp : String) (rd : Rd Obj) (full : Stream) (x : Obj) : Nat → Verdict → P Verdict
@@ -412,6 +444,94 @@ def xload : P String := do
     let v := judge { tag := "xload " ++ kind } comp rd sh (tokenize (unhex hex)) o "shape_mismatch"
     return v.render
 
+/-- model state of one stream across consecutive loads: `none` = failbit set (sticky: every later read fails) -/
+def seqStep (v : Verdict) (comp kind : String) (rd : Rd Obj) (sh : Shape) (st : Option Stream) (saved : Obj) (what : String) :
+    P (Verdict × Option (Option Stream)) := do
+  let o ← pOut kind sh
+  let (rd', s) : Rd Obj × Stream := match st with | some s => (rd, s) | none => ((fun _ => .bad .failbit), [])
+  let v := judge v comp rd' sh s o what (some saved)
+  -- a load on a stream whose failbit is already set must fail and leave its destination alone
+  let v := match st, o with
+    | none, .good _ _ => v.failIf true s!"{comp} load_succeeded_on_failed_stream {what}"
+    | _, _ => v
+  let next : Option (Option Stream) := match rd' s, o with
+    | .bad .threw, _ => none
+    | _, .failed .threw _ => none
+    | _, .nonfinite => none
+    | .ok _ s', _ => some (some s')
+    | .bad .failbit, _ => some none
+  pure (v, next)
+
+/-- `seq kindT S A O kindU | hex | dump x | dump y | ci label allSaved steps outcome…` : x, y, x written into one stream and
+    read back one after the other through it (never cleared); one token optionally corrupted -/
+def seq : P String := do
+  let (kindT, sh) ← pHead; let kindU ← P.tok; P.bar
+  let hex ← P.tok; P.bar
+  let x ← pObj kindT sh; P.bar
+  let y ← pObj kindU sh; P.bar
+  let ci ← P.nat; let lab ← P.tok; let allSaved ← P.bool; let steps ← P.nat
+  let compT := component kindT
+  let compU := component kindU
+  match readObj viaDouble kindT sh, readObj viaDouble kindU sh with
+  | some rdT, some rdU =>
+    let full := tokenize (unhex hex)
+    let s0? := if lab == "none" then some full else corruptToks full ci lab
+    match s0? with
+    | none => P.fail
+    | some s0 =>
+      let v : Verdict := { tag := "seq " ++ kindT ++ " " ++ kindU }
+      let v := v.diffIf (writeObj prec x ++ writeObj prec y ++ writeObj prec x != full) s!"{compT} writer model and impl texts differ (sequence)"
+      let w := s!"seq token={ci}:{lab}"
+      let (v, n1) ← seqStep v compT kindT rdT sh (some s0) x (w ++ " load=1")
+      let (v, n2) ← match n1 with
+        | some st => if steps ≥ 2 then seqStep v compU kindU rdU sh st y (w ++ " load=2") else pure (v.diffIf true s!"{compT} sequence model continues, impl stopped {w}", none)
+        | none => pure (v.diffIf (steps ≥ 2) s!"{compT} sequence impl continues after an exception the model raises {w}", none)
+      let (v, n3) ← match n2 with
+        | some st => if steps ≥ 3 then seqStep v compT kindT rdT sh st x (w ++ " load=3") else pure (v.diffIf true s!"{compU} sequence model continues, impl stopped {w}", none)
+        | none => pure (v, none)
+      -- the property's clause on the uncorrupted sequence: three loads, each destination bit-identical to what was saved,
+      -- nothing left unread
+      let v := if lab == "none" then
+          let v := v.failIf (!allSaved || steps != 3) s!"{compT} sequence_roundtrip_differs next={compU}"
+          match n3 with
+          | some (some []) => v
+          | some (some _) => v.diffIf true s!"{compT} sequence leaves input unread in the model"
+          | _ => v.diffIf true s!"{compT} sequence model fails on the written text"
+        else v
+      return v.render
+  | _, _ => P.fail
+
+/-- `rtbits kind | sig bitsame restOk` : objects holding -0.0 and denormals (no model: the rationals have no negative zero) -/
+def rtbits : P String := do
+  let kind ← P.tok; P.bar
+  let sig ← P.nat; let bitsame ← P.bool; let restOk ← P.bool; P.eof
+  let comp := component kind
+  let v : Verdict := { tag := "rtbits " ++ kind }
+  let v := v.failIf (sig != 0) s!"{comp} roundtrip_load_failed signal={sig} negative_zero"
+  let v := v.failIf (sig == 0 && !bitsame) s!"{comp} roundtrip_differs_negative_zero"
+  let v := v.failIf (sig == 0 && !restOk) s!"{comp} roundtrip_consumed_wrong_amount negative_zero"
+  return v.render
+
+def fmtGo (site : String) : Nat → Verdict → P Verdict
+  | 0, v => pure v
+  | n + 1, v => do
+    let mode ← P.tok; let sig ← P.nat; let same ← P.bool; let restored ← P.bool
+    -- the property's clause on the implementation's own output: what was written must load back identical
+    let v := v.failIf (sig != 0 || !same) s!"{site} roundtrip_differs_stream_flags mode={mode} signal={sig}"
+    let v := v.failIf (!restored) s!"{site} writer_leaves_stream_flags_changed mode={mode}"
+    fmtGo site n v
+
+/-- `fmt kind S A O | n (mode sig bitsame flagsRestored)*n` : the object written to a stream whose formatting flags are
+    not the default ones, loaded from a fresh stream.  Component = the site that formats the numbers: the shared
+    `write(os, …)` family of src/Utils/IO.cpp (every kind but the POMDP policy), or the POMDP policy writer. -/
+def fmt : P String := do
+  let (kind, _) ← pHead; P.bar
+  let n ← P.nat
+  let site := if kind == "ppol" then "POMDP::Policy" else "Utils::write"
+  let v ← fmtGo site n { tag := "fmt " ++ kind }
+  P.eof
+  return v.render
+
 /-- `rtcopy S A | sig dump x | dump y` : load into a copy-constructed MDP::Policy (not modelled: the model has no aliasing) -/
 def rtcopy : P String := do
   let s ← P.nat; let a ← P.nat; P.bar
@@ -430,6 +550,9 @@ def handle (toks : List String) : String :=
   | "xload" :: r => (P.run xload r).getD "bad-op"
   | "trim" :: r => (P.run trim r).getD "bad-op"
   | "bcorrupt" :: r => (P.run bcorrupt r).getD "bad-op"
+  | "seq" :: r => (P.run seq r).getD "bad-op"
+  | "fmt" :: r => (P.run fmt r).getD "bad-op"
+  | "rtbits" :: r => (P.run rtbits r).getD "bad-op"
   | _ => "bad-op"
 
 end DrvC17
